@@ -196,7 +196,7 @@ def time_specs(max_n=200, theta="any"):
                    st.floats(-4, 0).map(lambda e: float(10.0**e)))
     t0m = st.one_of(st.just(0), st.just(0), st.integers(-100000, 100000),
                     st.floats(-1e5, 1e5), st.sampled_from([1, -1, 10, 0.5, -2.5, 1000]))
-    n = st.one_of(st.integers(1, 12), st.integers(1, 40), st.integers(0, max_n))
+    n = st.one_of(st.integers(3, 12), st.integers(1, 40), st.integers(0, max_n), st.integers(3, max_n))
     whole = st.just([0, 1])
     generic = st.integers(2, 97).flatmap(lambda k: st.tuples(st.integers(1, k - 1), st.just(k))).map(list)
     special = st.sampled_from([[1, 2], [1, 3], [2, 3], [1, 10], [9, 10], [1, 100], [99, 100], [49, 100],
@@ -206,9 +206,10 @@ def time_specs(max_n=200, theta="any"):
     if theta == "whole":
         th = whole
     elif theta == "nowhole":
-        th = st.one_of(whole, whole, generic, special)
+        th = st.integers(0, 5).flatmap(lambda i: [whole, whole, whole, generic, generic, special][i])
     else:
-        th = st.one_of(whole, whole, whole, generic, generic, special, near)
+        th = st.integers(0, 9).flatmap(lambda i: [whole, whole, whole, whole, whole, generic, generic, special,
+                                                  special, near][i])
     return st.builds(
         lambda dt, t0m, n, th, build: {"dt": dt, "t0m": t0m, "N": n, "theta": th, "build": build},
         dt, t0m, n, th, st.sampled_from(["mult", "mult", "dec"]))
@@ -285,7 +286,7 @@ def interrupt_specs(kinds=("const", "const", "const", "fixed", "log", "geom"), r
                      st.one_of(st.sampled_from([1.1, 1.5, 2.0, 10.0]), st.floats(1.05, 10.0)),
                      st.sampled_from(["obj", "str"]))
     table = {"const": const, "fixed": fixed, "log": log, "geom": geom}
-    return st.one_of([table[k] for k in kinds])
+    return st.sampled_from(list(kinds)).flatmap(lambda k: table[k])
 
 
 def rho_float(ispec):
@@ -553,10 +554,22 @@ def lin_reference(case, n):
 
 
 def step_reference(case, n, t0, dt):
-    """n textbook steps (euler / classical RK4) of the harness' own rate function."""
+    """n textbook steps of the harness' own rate function.
+
+    euler / classical RK4 for every equation; backward Euler, Crank-Nicolson and AB2 (with the
+    documented start-up u_{-1} = u_0 - dt f(u_0, t_0)) for the linear inhomogeneous equation
+    u' = a u + g(t), where the implicit relations are solved in closed form."""
     eq = SimEq(case["eq"], dt)
     u = initial_array(case["state"])
     name = case["solver"]["name"]
+    if name in ("implicit", "crank-nicolson", "adams-bashforth") and eq.kind != "nonauto":
+        raise ValueError(name)
+    z = case["eq"].get("z")
+
+    def g(t):
+        return eq.b * math.cos(eq.w * t + eq.phi)
+
+    prev = None
     for i in range(n):
         t = t0 + i * dt
         if name == "euler":
@@ -567,6 +580,15 @@ def step_reference(case, n, t0, dt):
             k3 = dt * eq.rate(u + 0.5 * k2, t + 0.5 * dt)
             k4 = dt * eq.rate(u + k3, t + dt)
             u = u + (k1 + 2 * k2 + 2 * k3 + k4) / 6
+        elif name == "implicit":
+            u = (u + dt * g(t + dt)) / (1 - z)
+        elif name == "crank-nicolson":
+            u = (u * (1 + z / 2) + dt / 2 * (g(t) + g(t + dt))) / (1 - z / 2)
+        elif name == "adams-bashforth":
+            if prev is None:
+                prev = u - dt * eq.rate(u, t)
+            new = u + dt * (1.5 * eq.rate(u, t) - 0.5 * eq.rate(prev, t - dt))
+            prev, u = u, new
         else:
             raise ValueError(name)
     return u
